@@ -1,67 +1,101 @@
 (* C03 — strict validation is sound (and not vacuous): property theorems on the model.
 
-   Proved (all for BOTH validation modes, every schema, request environment, request, store):
-     c03_sound_partial        tc accepts e (in_fragment), the request is one of the environment, the prior
-                              capabilities hold  =>  eval e is a permitted error (missing entity / overflow /
-                              extension) or a value inhabiting the assigned type (TypeConforms of Conform.v), and a
-                              `true` result justifies the output capabilities
+   Proved, for BOTH validation modes, every well-formed schema, request environment, request and store:
+     c03_sound_partial        tc accepts e (in_fragment e), the request is one of the environment, every entity of
+                              the store conforms to the schema (EntityConforms of Conform.v, = the boolean checker
+                              conf_entity by c11_entity: c03_store_ok_from_checker), the prior capabilities hold
+                              =>  eval e is a permitted error (missing entity / overflow / extension) or a value
+                              inhabiting the assigned type (TypeConforms), a `true` result justifies the output
+                              capabilities, and the capabilities of a True-typed expression hold unconditionally
      c03_impossible_partial   an expression typed False never evaluates to true
      c03_policy_sound_partial an accepted condition (Success / Irrelevant) evaluates to a boolean or a permitted error
-   "partial" = the syntactic fragment TypecheckProofs.in_fragment: literals, variables, &&, || (right operand
-   without capabilities), !, ==, and `has` / `.` on the context record with capability tracking (the documented
-   `context has a && context.a ...` idiom, required and optional attributes, closed records).
-   NOT proved (stated in notes/C03.md, compared with the implementation by the correspondence and searched by
-   the oracle): if-then-else, attribute access on entities and nested paths, tags, in / is / like / contains*,
-   arithmetic and comparisons, extension calls, set and record literals, c03_strict_in_permissive and the
-   general non-vacuity judgement c03_accepts_guarded (only the Examples below). *)
-From Cedar Require Import Typecheck TypecheckProofs.
+   "partial" = the syntactic fragment TypecheckProofs3.in_fragment:
+     literals, variables, && and || with full capability flow (union / intersection, short-circuit singleton
+     typing), !, ==, if-then-else with singleton short-circuit typing and capability flow (branches boolean-rooted),
+     `has` and `.` on access paths (variable followed by attribute selections) over records AND entities:
+     required / optional attributes, optional ones behind capabilities, nested records, entity-typed attributes,
+     open / closed types, absent entities; integer arithmetic (+, -, *, unary -: value or overflow); like; is.
+   Not in the fragment (see notes/C03.md): attribute access on non-path expressions, non-boolean `if` branches,
+   <, <=, tags, in, contains*, isEmpty, extension calls, set and record literals. *)
+From Cedar Require Import Typecheck ConformProofs ExprEq TypecheckProofs TypecheckProofs2 TypecheckProofs3.
 
 Theorem c03_sound_partial :
-  forall m sch env q es, env_ok env q ->
+  forall m sch env q es,
+  schema_wf sch = true -> (forall t, is_action_type t = true -> find_etype sch t = None) ->
+  decl_ty_ok (re_context env) = true -> env_ok env q -> store_ok sch es ->
   forall e, in_fragment e = true ->
   forall cs t cs', caps_hold q es cs -> tc m sch env cs e = Some (t, cs') -> sound_result q es e t cs'.
 Proof. exact tc_sound. Qed.
 Print Assumptions c03_sound_partial.
 
 Theorem c03_impossible_partial :
-  forall m sch env q es e cs cs', env_ok env q -> in_fragment e = true -> caps_hold q es cs ->
+  forall m sch env q es,
+  schema_wf sch = true -> (forall t, is_action_type t = true -> find_etype sch t = None) ->
+  decl_ty_ok (re_context env) = true -> env_ok env q -> store_ok sch es ->
+  forall e cs cs', in_fragment e = true -> caps_hold q es cs ->
   tc m sch env cs e = Some (TBool BFalse, cs') -> eval [] q es e <> Ok (VBool true).
 Proof. exact tc_impossible. Qed.
 Print Assumptions c03_impossible_partial.
 
 Theorem c03_policy_sound_partial :
-  forall m sch env q es e t, env_ok env q -> in_fragment e = true ->
+  forall m sch env q es,
+  schema_wf sch = true -> (forall t, is_action_type t = true -> find_etype sch t = None) ->
+  decl_ty_ok (re_context env) = true -> env_ok env q -> store_ok sch es ->
+  forall e t, in_fragment e = true ->
   tc_env m sch env e = EnvSuccess t \/ tc_env m sch env e = EnvIrrelevant ->
   (exists c, eval [] q es e = Err c /\ allowed_err c) \/ (exists b, eval [] q es e = Ok (VBool b)).
 Proof. exact tc_env_sound. Qed.
 Print Assumptions c03_policy_sound_partial.
 
-(* ---- non-vacuity: the hypotheses are satisfiable, the guarded idiom is accepted, its unguarded and
-   wrong-side-of-|| variants are rejected (strict mode) *)
-Definition ex_sch : schema := mkSchema [] [].
+(* the store hypothesis is what the implementation-side checker (model: Conform.conf_entity) establishes *)
+Theorem c03_store_ok_from_checker :
+  forall sch es, schema_wf sch = true ->
+  (forall u d, find_entity u es = Some d -> conf_entity sch (u, d) = None) -> store_ok sch es.
+Proof. intros sch es Hwf H u d Hf. apply (conf_entity_iff sch (u, d) Hwf). apply H. exact Hf. Qed.
+Print Assumptions c03_store_ok_from_checker.
+
+(* ---- non-vacuity: the hypotheses are satisfiable, the guarded idioms are accepted, their unguarded,
+   wrong-side-of-|| and after-! variants are rejected (strict mode) *)
+Definition ex_user : etype := [s2str "User"].
+Definition ex_sch : schema :=
+  mkSchema [(ex_user, mkEtypeInfo [(s2str "o", (TLong, false)); (s2str "r", (TLong, true))] false None [] None)] [].
 Definition ex_ctx : ty := TRecord [(s2str "n", (TLong, true)); (s2str "o", (TLong, false))] false.
-Definition ex_env : reqenv := mkReqEnv [s2str "User"] (mkUid [s2str "Action"] (s2str "view")) [s2str "Doc"] ex_ctx None None.
+Definition ex_env : reqenv := mkReqEnv ex_user (mkUid [s2str "Action"] (s2str "view")) ex_user ex_ctx None None.
 Definition ex_has := HasAttr (Var Context) (s2str "o").
 Definition ex_use := BinApp BEq (GetAttr (Var Context) (s2str "o")) (GetAttr (Var Context) (s2str "n")).
+Definition ex_phas := HasAttr (Var Principal) (s2str "o").
+Definition ex_puse := BinApp BEq (GetAttr (Var Principal) (s2str "o")) (GetAttr (Var Principal) (s2str "r")).
 
 Example c03_accepts_guarded_example :
   in_fragment (And ex_has ex_use) = true /\
-  tc Strict ex_sch ex_env [] (And ex_has ex_use) = Some (TBool BAny, [cap_attr (Var Context) (s2str "o")]).
-Proof. split; vm_compute; reflexivity. Qed.
+  tc Strict ex_sch ex_env [] (And ex_has ex_use) = Some (TBool BAny, [cap_attr (Var Context) (s2str "o")]) /\
+  in_fragment (If ex_phas ex_puse (Lit (PBool false))) = true /\
+  tc Strict ex_sch ex_env [] (If ex_phas ex_puse (Lit (PBool false))) = Some (TBool BAny, []) /\
+  tc Strict ex_sch ex_env [] (And ex_phas ex_puse) = Some (TBool BAny, [cap_attr (Var Principal) (s2str "o")]).
+Proof. repeat split; vm_compute; reflexivity. Qed.
 
 Example c03_rejects_unguarded_example :
   tc Strict ex_sch ex_env [] ex_use = None /\ tc Strict ex_sch ex_env [] (Or ex_has ex_use) = None /\
-  tc Strict ex_sch ex_env [] (And (UnApp UNot ex_has) ex_use) = None.
+  tc Strict ex_sch ex_env [] (And (UnApp UNot ex_has) ex_use) = None /\
+  tc Strict ex_sch ex_env [] ex_puse = None /\
+  tc Strict ex_sch ex_env [] (If ex_phas (Lit (PBool true)) ex_puse) = None.
 Proof. repeat split; vm_compute; reflexivity. Qed.
 
 Definition ex_q : request :=
-  mkRequest (mkUid [s2str "User"] (s2str "a")) (mkUid [s2str "Action"] (s2str "view")) (mkUid [s2str "Doc"] (s2str "d"))
+  mkRequest (mkUid ex_user (s2str "a")) (mkUid [s2str "Action"] (s2str "view")) (mkUid ex_user (s2str "d"))
             [(s2str "n", VLong 1)].
-Example c03_hypotheses_satisfiable : env_ok ex_env ex_q /\ caps_hold ex_q [] [].
+Example c03_hypotheses_satisfiable :
+  schema_wf ex_sch = true /\ (forall t, is_action_type t = true -> find_etype ex_sch t = None) /\
+  decl_ty_ok (re_context ex_env) = true /\ env_ok ex_env ex_q /\ store_ok ex_sch [] /\ caps_hold ex_q [] [].
 Proof.
-  split; [|apply caps_hold_nil]. constructor; try reflexivity.
-  apply TC_record.
-  - intros k t [H|[H|[]]]; inversion H; subst; reflexivity.
-  - intros k v [H|[]] t r Hl; inversion H; subst. vm_compute in Hl. inversion Hl; subst. constructor.
-  - intros _ k v [H|[]]; inversion H; subst; reflexivity.
+  split; [vm_compute; reflexivity|]. split.
+  { intros t Ht. unfold find_etype, ex_sch. cbn [s_etypes find_etype_in].
+    destruct (name_eqb t ex_user) eqn:E; [|reflexivity].
+    apply name_eqb_eq in E. subst t. vm_compute in Ht. discriminate Ht. }
+  split; [vm_compute; reflexivity|]. split.
+  { constructor; try reflexivity. apply TC_record.
+    - intros k t [H|[H|[]]]; inversion H; subst; reflexivity.
+    - intros k v [H|[]] t r Hl; inversion H; subst. vm_compute in Hl. inversion Hl; subst. constructor.
+    - intros _ k v [H|[]]; inversion H; subst; reflexivity. }
+  split; [intros u d H; discriminate H|apply caps_hold_nil].
 Qed.
